@@ -700,3 +700,41 @@ def uninspected_results(f, ty_rx=r"^std::result::Result<"):
         if loc != 0 and re.search(ty_rx, ty) and loc not in reads:
             out.append((bi, callee_key(t), ty))
     return out
+
+
+def examined_results(f):
+    """switches on the discriminant of a whole `Result` local: [(switch block, local, type, err_target)]"""
+    out = []
+    for sb, b in enumerate(f.blocks):
+        if b.get("cleanup"):
+            continue
+        t = b["term"]
+        if t["k"] != "switch" or t["d"]["k"] not in ("copy", "move"):
+            continue
+        P = None
+        for kind, dbi, st in f.defs_of(t["d"]["p"]["local"]):
+            if kind == "assign" and st["rv"]["k"] == "discr":
+                P = st["rv"]["p"]
+        if P is None or P["proj"]:
+            continue
+        ty = f.rec["locals"][P["local"]]
+        if not ty.startswith("std::result::Result<"):
+            continue
+        tgt = [x[1] for x in t["ts"] if x[0] == 1]
+        out.append((sb, P["local"], ty, tgt[0] if tgt else t["else"]))
+    return out
+
+
+def swallowed_errors(f):
+    """examined Results whose Err edge can reach a `return` without passing a block that builds the function's
+    Err value: [(switch block, local, type, err-return reachable from the Err edge?)]"""
+    errs = set(f.err_return_blocks())
+    out = []
+    for sb, loc, ty, tgt in examined_results(f):
+        if tgt in errs:
+            continue
+        reach = f.reachable_without_edges(tgt, removed_blocks=list(errs), removed_edges=[])
+        if any(f.blocks[bi]["term"]["k"] == "return" for bi in reach):
+            full = f.reachable_blocks(tgt)
+            out.append((sb, loc, ty, any(e in full for e in errs)))
+    return out
